@@ -11,6 +11,8 @@ THEOREMS = ['Tbox.C12.' + t for t in [
     'C12_segmentation', 'C12_parse_wellformed', 'C12_segmentation_wellformed', 'C12_no_request_after_close',
     'C12_in_order_once', 'C12_no_response_stuck', 'C12_nothing_after_close',
     'C12_single_disconnect', 'C12_peer_stream', 'C12_close_after_full_delivery',
+    'C12_write_error', 'C12_half_close_counterexample', 'C12_written_once', 'C12_head_of_line', 'C12_commit_after_gone',
+    'C12_respond_roundtrip', 'C12_untouched_context_answers_404', 'C12_url_codec_roundtrip', 'C12_url_roundtrip_counterexample',
     'C12_nothing_after_close_counterexample_unpatched', 'C12_closing_response_lost_unpatched']]
 SOURCES = [
     'modules/http/common.cpp', 'modules/http/url.cpp', 'modules/http/request.cpp', 'modules/http/respond.cpp',
@@ -26,6 +28,7 @@ SOURCES = [
     'modules/event/timer_event_impl.cpp',
 ] + vlib.BASE_SOURCES
 FLAVOUR = 'asan'
+LIBS = ['-ldl']
 BATCH = 150
 MAX_REPORT = 14
 BATCH_TIMEOUT = 240
@@ -38,18 +41,24 @@ TRUSTED = ['models lean/TboxModel/C12/Model.lean (parser, feed loop) and Pipelin
            'only on the start line is the lemma Proofs.startLineLit_eq',
            'send-side contract assumed (property C06): bytes handed to send reach the peer in order; send-complete is reported only '
            'after the send buffer drained (part of traceOk); the harness exercises it with responses larger than the socket buffer',
+           'Respond::toString, Request::toString, UrlPathToString, UrlEncode are transcribed (Pipeline.Respond.render, Model.Req.render) '
+           'and compared byte for byte (client output, str= field of every delivered request); the status table is regenerated from common.cpp/.h',
+           'write errors are injected by interposing write() in the harness (EPIPE on the server side of the connection) and by real '
+           'EPIPE/ECONNRESET (client closes before a commit / without reading a large response)',
            'ops method/version compare StringToMethod/StringToHttpVer with a fixed reference table (Model.stdMethods/stdVersions)',
            'method/version tables are regenerated from common.cpp on every run (GenTables.lean)',
            'kernel/socket behaviour (a small write is accepted whole; send-complete follows a burst of writes) is observed, not modelled',
            'std::map / std::string of libstdc++ behave as ordered map / byte string']
-ASSUMPTIONS = ['size_t is 64 bit', 'operator new does not fail', 'the peer does not half-close (shutdown(SHUT_WR)) while a response is outstanding; a full close at any point is modelled and exercised',
+ASSUMPTIONS = ['size_t is 64 bit', 'operator new does not fail',
                'each Context is destroyed once (shared_ptr), so each delivered request commits exactly once']
 RULE = ('cases from props/C12/plugin.py: (a) parser level — pipelines of 1-4 generated requests (7 methods, targets with params/query/'
         'fragment/escapes, 3 versions, 0-3 extra headers, Content-Length + body incl. CR/LF/NUL bytes), fed through a real RequestParser '
         'in 1..n segments (single, every byte, random cuts, cuts next to every CR/LF/space/colon), plus the same with missing or '
         'malformed Content-Length and syntax mutations, plus a hostile byte stream; (b) server level — a real Server on a Unix socket, '
         'pipelines with and without a closing request, handlers completing inside the callback or later in a random permutation, '
-        'the client closing at a random point (also in the same loop pass as a completion), responses of up to 1 MB (partial writes); '
+        'the client closing at a random point (also in the same loop pass as a completion, before a completion = EPIPE, without '
+        'reading a large response), half-closing, an injected permanent write failure, responses of up to 1 MB (partial writes), '
+        'responses with arbitrary status / header map / body and contexts dropped untouched, compared byte for byte at the client; '
         '(c) the standard method/version names against a fixed reference table. '
         'non-trivial = the model run delivers at least one request out of >= 2 segments, or parks/flushes a response, or fails/closes, '
         'or sees a peer close or a large response; '
@@ -64,7 +73,9 @@ LEVEL_TEXT = ('Lean 4 theorems over a hand-written model of RequestParser::parse
               'tree on every run by differential execution (ASan+UBSan) at parser level and against a real Server over a Unix socket')
 LEVEL_NOTE = ('trusted: Lean kernel, hand-written model + differential tie (coverage bounded by the generator, measured in evidence); '
               'requests without Content-Length are outside the segmentation theorem (the code takes "everything in the buffer" as body); '
-              'peer half-close and write errors (EPIPE) are not modelled; the send-side contract is assumed (C06)')
+              'peer half-close is modelled AS CODED (read-zero tears the connection down; outstanding responses are lost — recorded as a '
+              'finding, C12_half_close_counterexample); the send-side contract is assumed (C06); a transient write error inside '
+              'BufferedFd::send (data dropped, connection kept) belongs to C06 and is exercised only as a permanent failure')
 TECHNIQUE = 'Lean 4 proofs over an executable parser/feed-loop/pipeline model + model/implementation correspondence check'
 DESIGN_REF = 'DESIGN.md §6 C12, §7 row 6'
 
@@ -81,12 +92,21 @@ def pre_lean(repo, lean):
         return ents
     mt, vt = table('_method_map', 'Method'), table('_http_ver_map', 'HttpVer')
     fmt = lambda ents: '[' + ', '.join('("%s", "%s")' % e for e in ents) + ']'
-    text = ('/- GENERATED by props/C12/plugin.py pre_lean from modules/http/common.cpp — do not edit.\n'
-            '   Method / HTTP-version tables of StringToMethod / StringToHttpVer (enum name, wire string). -/\n'
+    # status codes: numeric value of the enum constant (common.h) and the text of the table (common.cpp)
+    hdr = open(os.path.join(repo, 'modules/http/common.h'), encoding='utf-8').read()
+    m = re.search(r'enum class StatusCode\s*\{(.*?)\};', hdr, re.S)
+    if not m: raise RuntimeError('enum StatusCode not found')
+    values = dict(re.findall(r'(k\w+)\s*=\s*(\d+)', m.group(1)))
+    st = [(values[n], t) for (n, t) in table('_status_code_map', 'StatusCode') if n in values]
+    if not st: raise RuntimeError('status table empty')
+    text = ('/- GENERATED by props/C12/plugin.py pre_lean from modules/http/common.cpp / common.h — do not edit.\n'
+            '   Method / HTTP-version tables of StringToMethod / StringToHttpVer (enum name, wire string) and the\n'
+            '   status table of StatusCodeToString (numeric value of the enum constant, text). -/\n'
             'namespace Tbox.C12.Gen\n\n'
             'def methodTable : List (String × String) :=\n  %s\n\n'
             'def verTable : List (String × String) :=\n  %s\n\n'
-            'end Tbox.C12.Gen\n' % (fmt(mt), fmt(vt)))
+            'def statusTable : List (Nat × String) :=\n  %s\n\n'
+            'end Tbox.C12.Gen\n' % (fmt(mt), fmt(vt), '[' + ', '.join('(%s, "%s")' % e for e in st) + ']'))
     path = os.path.join(lean, 'TboxModel/C12/GenTables.lean')
     old = open(path, encoding='utf-8').read() if os.path.exists(path) else None
     if old != text:
@@ -98,7 +118,7 @@ def pre_lean(repo, lean):
 METHODS = ['GET', 'HEAD', 'PUT', 'POST', 'TRACE', 'OPTIONS', 'DELETE']
 VERSIONS = ['HTTP/1.1', 'HTTP/1.1', 'HTTP/1.1', 'HTTP/1.0', 'HTTP/2.0']
 TARGETS = ['/', '/index.html', '/a/b/c', '/a%20b', '/p;x=1', '/p;x=1;y=2', '/p?q=1', '/p?q=1&r=2', '/p?q=', '/p#frag', '/p;a=b?c=d#e',
-           '/%41%42', '/x?k=%3d&k=2', '/p?b=1&a=2', '/p;z=%7e', '/?a=b', '/#', '/a?x=1;y=2', '/a#b?c=d', '/a%4']
+           '/%41%42', '/%ff%00', '/a%2fb.c', '/p?k%3d=v%26w', '/p#%41', '/p;a%3b=%25', '/x?k=%3d&k=2', '/p?b=1&a=2', '/p;z=%7e', '/?a=b', '/#', '/a?x=1;y=2', '/a#b?c=d', '/a%4']
 BAD_TARGETS = ['x', '', '/p;', '/p;a', '/p?', '/p?a', '/p?=b', '/%zz', '/%4z', '/p;a=b=c', '/p?a=1&&b=2', 'http://h/p', '*']
 HDRS = [('Host', 'example.com'), ('Accept', '*/*'), ('X-A', 'b'), ('X-A', 'c'), ('Connection', 'keep-alive'), ('Connection', 'close'),
         ('Connection', 'Keep-Alive'), ('Connection', 'x, close'), ('connection', 'close'), ('User-Agent', 'a b  c'), ('X-Colon', 'a:b'),
@@ -205,6 +225,13 @@ def gen_parser_case(rng):
     return ['feed ' + hx(s) for s in split_stream(rng, stream)]
 
 
+# `chalf` ties the half-close behaviour AS CODED (read-zero tears the connection down). Once the lead has recorded the
+# finding (fp below) in known_findings.txt the generator asks for what the PROPERTY wants instead (`chalfS`: outstanding
+# responses still written), so that every run reports KNOWN-FINDING with a concrete replay.
+HALF_FP = 'srv-halfclose-responses-lost'
+HALF_OP = 'chalfS' if any(fp == HALF_FP for (fp, _) in vlib.load_findings('C12')) else 'chalf'
+
+
 def gen_server_case(rng):
     k = rng.choice([1, 2, 2, 3, 3, 4, 5])
     closing_at = rng.randrange(k + 2) if rng.random() < 0.6 else None   # may be beyond the pipeline = none
@@ -238,19 +265,48 @@ def gen_server_case(rng):
         ops.append('done %d %s' % (i, hx(rbody(rng))))
     if rng.random() < 0.3:
         ops.append('seg ' + hx(gen_request(rng)))      # traffic after everything (after close: must be ignored)
+    ops = [richer_done(rng, o) if o.startswith('done ') else o for o in ops]
+    first = 1 + len(sync)
+    # peer half-close / write failure at a random point
+    r = rng.random()
+    if r < 0.10 and len(ops) > first:
+        ops.insert(rng.randrange(first + 1, len(ops) + 1), HALF_OP)
+    elif r < 0.18 and len(ops) > first:
+        ops.insert(rng.randrange(first, len(ops) + 1), 'wfail')
     # peer-initiated close at a random point (handlers may still complete afterwards)
     r = rng.random()
     if r < 0.25:
         first = 1 + len(sync)
         pos = rng.randrange(first + 1, len(ops) + 1) if len(ops) > first else len(ops)
         dones = [k for k in range(pos, len(ops)) if ops[k].startswith('done ')]
-        if dones and rng.random() < 0.4:
+        if dones and rng.random() < 0.5:
             k = dones[0]; w = ops[k].split()
-            ops[k] = 'dclose %s %s' % (w[1], w[2])     # commit and peer close in the same loop pass
+            v = rng.random()
+            if v < 0.4: ops[k] = 'dclose %s %s' % (w[1], w[2])     # commit and peer close in the same loop pass
+            elif v < 0.7: ops[k] = 'cdone %s %s' % (w[1], w[2])    # peer closes first: the commit's write gets EPIPE
+            else: ops[k] = 'dcloseN %s %d %d' % (w[1], rng.choice([300000, 1000000]), rng.randrange(256))
         else:
             ops.insert(pos, 'cclose')
         if rng.random() < 0.2: ops.append('cclose')    # second close: bad-op on both sides
     return ops
+
+
+RESP_HDRS = [('Content-Type', 'text/plain'), ('X-A', 'b'), ('Server', 'tbox'), ('Content-Length', '99'), ('X-Colon', 'a:b'),
+             ('', 'empty-key'), ('X-Sp', ' v '), ('Set-Cookie', 'a=b; c=d'), ('X-Bin', '\x00\xff')]
+STATUS = [200, 200, 201, 204, 206, 301, 400, 404, 500, 505, 299, 0, 999]
+
+
+def richer_done(rng, op):
+    """turn some plain `done i body` ops into doneR (status, headers) / rel (context dropped untouched)"""
+    w = op.split()
+    r = rng.random()
+    if r < 0.30:
+        hs = [rng.choice(RESP_HDRS) for _ in range(rng.choice([0, 1, 2, 3]))]
+        kv = ','.join('%s:%s' % (hx(k.encode('latin-1')), hx(v.encode('latin-1'))) for (k, v) in hs) or '-'
+        return 'doneR %s %d %s %s' % (w[1], rng.choice(STATUS), kv, w[2])
+    if r < 0.38:
+        return 'rel %s' % w[1]
+    return op
 
 
 def gen_big_case(rng):
@@ -296,6 +352,13 @@ def gen(rng, tier):
     m = 350 if tier == "quick" else 10000
     for _ in range(m):
         yield gen_server_case(rng)
+    yield ['srv', 'doneR 0 200 - 00', 'rel 0', 'doneR', 'rel', 'chalf', 'chalf', 'wfail', 'cdone 0 00', 'dcloseN 0 5 1', 'cclose', 'chalf', 'wfail']
+    hs = hx('GET /%d HTTP/1.1\r\nContent-Length: 0\r\n\r\n')
+    three = ''.join('GET /%d HTTP/1.1\r\nContent-Length: 0\r\n\r\n' % i for i in range(3))
+    yield ['srv', 'seg ' + hx(three), 'doneR 1 201 582d41:62,:76 6f6b', 'rel 0', 'doneR 2 1000 - 00', 'doneR 2 299 zz 00', 'doneR 2 299 41:42:43 00',
+           'doneR 2 299 436f6e74656e742d4c656e677468:3939 626f6479']
+    yield ['srv', 'seg ' + hx(three), 'done 1 31', HALF_OP, 'done 0 30', 'done 2 32', 'seg ' + hx(three)]
+    yield ['srv', 'seg ' + hx(three), 'wfail', 'done 0 30', 'done 1 31', 'cclose', 'done 2 32']
     yield ['srv', 'cclose', 'cclose', 'dclose 0 00', 'doneN 0 10 1', 'doneN x 1 1', 'doneN 0 3000000 1', 'doneN 0 1 256']
     for _ in range(12 if tier == 'quick' else 150):
         yield gen_big_case(rng)
@@ -305,7 +368,7 @@ def nontrivial(ops, model_lines):
     tags = ' '.join(l for l in model_lines if l.startswith('B '))
     nseg = sum(1 for o in ops if o.startswith(('feed ', 'seg ')))
     if 'req-' in tags and nseg >= 2: return 1
-    if any(t in tags for t in ('parked', 'wrote-flush', 'wrote-closing', 'parse-fail', 'seg-after-close', 'peer-close', 'doneN')): return 1
+    if any(t in tags for t in ('parked', 'wrote-flush', 'wrote-closing', 'parse-fail', 'seg-after-close', 'peer-close', 'doneN', 'doneR', 'rel-', 'half-close', 'wfail', 'epipe')): return 1
     return None
 
 
@@ -318,6 +381,7 @@ def fingerprint(ops, d):
         if w[0] == 'CRASH': return 'crash:' + (w[1] if len(w) > 1 else '')
         if w[0] in ('P', 'M') and len(w) > 1: return w[0] + '-' + w[1].split('=')[0]
         return w[0]
+    if any(o == 'chalfS' for o in ops): return HALF_FP
     mode = 'srv' if any(o.startswith('srv') for o in ops) else 'parser'
     if not d: return mode + '-none'
     return (mode + '-' + cls(d[1]) + '-vs-' + cls(d[2])).replace('/', '_').replace(':', '_').replace('<', '').replace('>', '')
